@@ -28,7 +28,7 @@ def case_(draw, tier):
     mode = draw(st.sampled_from(["auto", "csd"]))
     case = {"N": N, "mode": mode, "cfg": draw(gens.analysis_config(N, Jmax=40, Kmax=30)),
             "fs": draw(st.sampled_from([1.0, 10.0, 0.37, 1e4])),
-            "rec": draw(gens.pair(N, rel_kinds=["indep", "partial", "delay", "gain", "yzero"]) if mode == "csd" else gens.record(N)),
+            "rec": draw(gens.pair(N, rel_kinds=["indep", "partial", "delay", "delay", "gain", "gain", "same", "yzero"]) if mode == "csd" else gens.record(N)),
             "how": draw(st.sampled_from(["full", "full", "single"]))}
     if case["how"] == "single":
         case["L"] = draw(st.integers(1, N))
@@ -51,7 +51,7 @@ def oracle(case):
     an = gens.make_analyzer(data, fs, cfg)
     res = an.compute_single_bin(case["fbin"] * fs, L=case["L"]) if case["how"] == "single" else an.compute()
     wref = gens.resolve_window(cfg["win"])[1]
-    viol, nontrivial = [], False
+    viol, nontrivial, tiny = [], False, False
     var, dev, m2 = np.asarray(res.XY_emp_var), np.asarray(res.XY_emp_dev), np.asarray(res.XY_M2)
     gdev = np.asarray(res.Gxx_emp_dev if mode == "auto" else res.Gxy_emp_dev)
     other = res.Gxy_emp_dev if mode == "auto" else res.Gxx_emp_dev
@@ -73,13 +73,15 @@ def oracle(case):
         Sx = tol.seg_scale(x, D, L, w, cfg["order"])
         Sy = Sx if y is None else tol.seg_scale(y, D, L, w, cfg["order"])
         b4 = tol.budget4(L, om, Sx, Sy)
+        e2 = tol.budget2(L, om, Sx ** 0.5 * Sy ** 0.5)
+        bm2 = tol.budget_m2(e2, ref["M2"], b4)      # proportional to the scatter, not to |mean|^2
         exp_var = ref["M2"] / K
         if K == 1 and (var[j] != 0.0 or dev[j] != 0.0 or gdev[j] != 0.0):
             viol.append(V("nonzero_for_single_segment", bin=int(j), var=float(var[j])))
             break
-        if not abs(var[j] - exp_var) <= b4 / K:
+        if not abs(var[j] - exp_var) <= bm2 / K:
             viol.append(V("emp_var_ne_population_variance_over_K", bin=int(j), K=K, got=float(var[j]), expected=exp_var,
-                          budget=b4 / K, L=L, order=cfg["order"], backend=cfg["backend"], mode=mode))
+                          budget=bm2 / K, L=L, order=cfg["order"], backend=cfg["backend"], mode=mode))
             break
         S2 = float(np.sum(w * w))
         scale = 2.0 / (fs * S2) if S2 > 0 else 0.0
@@ -88,7 +90,12 @@ def oracle(case):
             break
         if K >= 3 and ref["M2"] > 1e3 * b4:
             nontrivial = True
-    return Res(viol, nontrivial, ["emp:%s,%s,o=%d,%s" % (mode, cfg["backend"], cfg["order"], case["how"])])
+        if K >= 2 and ref["M2"] < 1e-12 * abs(ref["XY"]) ** 2 and abs(ref["XY"]) ** 2 > 1e3 * b4:
+            tiny = True
+    labels = ["emp:%s,%s,o=%d,%s" % (mode, cfg["backend"], cfg["order"], case["how"])]
+    if tiny:
+        labels.append("tiny-relative-scatter")
+    return Res(viol, nontrivial or tiny, labels)
 
 
 def stat_cases(tier):
@@ -131,4 +138,4 @@ PARTS = [
     Part("analyses", case_, oracle, n_quick=200, n_thorough=2000),
     GridPart("gaussian", stat_cases, oracle_stat),
 ]
-QUOTAS = {"part:analyses": {"quick": 150, "thorough": 3000}, "part:gaussian": {"quick": 12, "thorough": 48}}
+QUOTAS = {"tiny-relative-scatter": {"quick": 4, "thorough": 100}, "part:analyses": {"quick": 150, "thorough": 3000}, "part:gaussian": {"quick": 12, "thorough": 48}}
